@@ -221,12 +221,17 @@ func oracleC17(x *scn.Exec) []mc.Violation {
 	agreementDelivered := false
 	cancelReceived := false
 	for _, m := range x.Delivered {
-		if m.To == scn.IDA && (m.Type == mtSwapInAgree || m.Type == mtSwapOutAgree || m.Type == mtCancel) {
+		if m.To == scn.IDA && m.Type == mtCancel {
 			agreementDelivered = true
 		}
 		if m.To == scn.IDA && m.Type == mtCancel {
 			cancelReceived = true // the peer itself cancelled: nothing to tell it
 		}
+	}
+	// "receives no agreement": ground truth is the swap record - an agreement of the other swap
+	// type, or one the state machine refused, is not an agreement for this swap
+	if (role == "in_sender" && sm.Data.SwapInAgreement != nil) || (role == "out_sender" && sm.Data.SwapOutAgreement != nil) {
+		agreementDelivered = true
 	}
 	cancelSent := false
 	for _, o := range x.W.Log {
